@@ -402,8 +402,219 @@ def run(repo, chk):
                "setattr registers / delattr removes constraints", loc(da_))
     chk.floor("R-C15-5", 3)
 
+    # ---------------------------------------------------------------- R-C15-7 constant folding only folds constants
+    # building an expression may evaluate eagerly (return a number instead of an operator) only when EVERY operand is a constant
+    # (a Float or a native number): a Param or Var read at build time freezes a value that "changing values" later must affect.
+    fold_rules(repo, chk)
+
+    # ---------------------------------------------------------------- R-C15-8 expression DAG discipline
+    # (a) wherever the operators of another expression are merged into an operator list, operators already present are skipped (a shared
+    #     sub-expression is listed once: reverse differentiation visits every listed operator once);
+    # (b) get_rpn builds each operator's program in a NEW list: an operand's program may be needed again by another parent.
+    dag_rules(repo, chk)
+
+
+
+# ------------------------------------------------------------------ R-C15-7
+KINDS = ("native", "Float", "Param", "Var", "expression")
+PREDS = ("is_leaf", "is_float_type", "is_parameter_type", "is_variable_type", "is_expression_type")
+
+
+def _class_methods(repo, cname):
+    """methods visible on class cname of expr.py through single inheritance (most derived first)."""
+    out = {}
+    classes = repo.classes(EXPR)
+    cur = cname
+    seen = set()
+    while cur in classes and cur not in seen:
+        seen.add(cur)
+        c = classes[cur]
+        for n in c.body:
+            if isinstance(n, ast.FunctionDef):
+                out.setdefault(n.name, (cur, n))
+        nxt = None
+        for b in c.bases:
+            if isinstance(b, ast.Name) and b.id in classes:
+                nxt = b.id
+            elif isinstance(b, ast.Call):
+                for a in b.args:
+                    if isinstance(a, ast.Name) and a.id in classes:
+                        nxt = a.id
+        cur = nxt
+    return out
+
+
+def _pred_table(repo):
+    tab = {}
+    for k in KINDS[1:]:
+        ms = _class_methods(repo, k)
+        for p in PREDS:
+            if p in ms:
+                rets = [r for r in walk(ms[p][1]) if isinstance(r, ast.Return)]
+                v = const(rets[0].value, None) if rets else None
+                if isinstance(v, bool):
+                    tab[(k, p)] = v
+    return tab
+
+
+def _eval_test(t, var, kind, tab):
+    """truth value of a guard for an operand of the given kind; None if unknown; 'raise' if it would fail on a native number."""
+    if isinstance(t, ast.BoolOp):
+        vals = [_eval_test(v, var, kind, tab) for v in t.values]
+        if isinstance(t.op, ast.And):
+            for v in vals:
+                if v is False:
+                    return False
+                if v in (None, "raise"):
+                    return v
+            return True
+        for v in vals:
+            if v is True:
+                return True
+            if v in (None, "raise"):
+                return v
+        return False
+    if isinstance(t, ast.UnaryOp) and isinstance(t.op, ast.Not):
+        v = _eval_test(t.operand, var, kind, tab)
+        return (not v) if isinstance(v, bool) else v
+    txt = unparse(t)
+    if txt in ("type(%s) in native_numeric_types" % var, "isinstance(%s, native_numeric_types)" % var):
+        return kind == "native"
+    if isinstance(t, ast.Call) and isinstance(t.func, ast.Attribute) and isinstance(t.func.value, ast.Name) and t.func.value.id == var and not t.args:
+        if kind == "native":
+            return "raise"
+        return tab.get((kind, t.func.attr))
+    if isinstance(t, ast.Call) and isinstance(t.func, ast.Name) and t.func.id == "isinstance" and isinstance(t.args[0], ast.Name) and t.args[0].id == var:
+        names = [e.id for e in (t.args[1].elts if isinstance(t.args[1], ast.Tuple) else [t.args[1]]) if isinstance(e, ast.Name)]
+        if kind == "native":
+            return False
+        return kind in names or (kind in ("Float", "Param", "Var") and "Leaf" in names)
+    return None
+
+
+def _folds(body, var, kind, tab):
+    """does this statement list return an eagerly evaluated number for an operand of `kind`?  True / False / None(unknown)"""
+    for st in body:
+        if isinstance(st, ast.If):
+            v = _eval_test(st.test, var, kind, tab)
+            if v == "raise":
+                return False           # would raise at build time: no silent folding
+            if v is None:
+                a = _folds(st.body, var, kind, tab)
+                b = _folds(st.orelse, var, kind, tab) if st.orelse else "fall"
+                if a == b:
+                    if a == "fall":
+                        continue
+                    return a
+                return None
+            r = _folds(st.body if v else st.orelse, var, kind, tab)
+            if r == "fall":
+                continue
+            return r
+        if isinstance(st, ast.Return):
+            txt = unparse(st.value) if st.value is not None else ""
+            return ".operation(" in txt and ".value" in txt or (isinstance(st.value, ast.Call) and unparse(st.value.func).endswith(".operation"))
+        if isinstance(st, ast.Assign) and isinstance(st.targets[0], ast.Name) and st.targets[0].id == var:
+            # other = Float(other): from here on the operand is a Float
+            if isinstance(st.value, ast.Call) and isinstance(st.value.func, ast.Name) and st.value.func.id == "Float":
+                kind = "Float"
+    return "fall"
+
+
+def fold_rules(repo, chk):
+    tab = _pred_table(repo)
+    if len(tab) < 12:
+        raise ExtractError("type predicate table of expr.py incomplete: %s" % sorted(tab))
+    n = 0
+    for cname in ("Float", "Param", "Var", "expression"):
+        ms = _class_methods(repo, cname)
+        if "_binary_operation_helper" not in ms:
+            raise AnchorError("%s._binary_operation_helper vanished" % cname)
+        owner, fn = ms["_binary_operation_helper"]
+        fn._rel = EXPR
+        fn._qual = "%s._binary_operation_helper" % owner
+        chk.fn(fn)
+        var = fn.args.args[1].arg
+        for kind in KINDS:
+            r = _folds(fn.body, var, kind, tab)
+            if r is None:
+                raise ExtractError("%s._binary_operation_helper: guard not decidable for an operand of kind %s" % (owner, kind))
+            folded = r is True
+            want = cname == "Float" and kind in ("native", "Float")
+            n += 1
+            chk.expect(folded == want or (not folded and want), "R-C15-7",
+                       "%s <op> %s is %s at build time" % (cname, kind, "folded to a number" if want else "kept as an operator (never folded)"), loc(fn),
+                       "expression building evaluates %s <op> %s eagerly with the operand's current value: a later change of that value is not seen by the "
+                       "compiled residual / Jacobian" % (cname, kind), expected="operator node" if not want else "number or operator", found="folded" if folded else "operator")
+        owner, fn = ms["_unary_operation_helper"]
+        fn._rel = EXPR
+        txt = unparse(fn)
+        folded = ".operation(self.value" in txt
+        n += 1
+        chk.expect(folded == (cname == "Float") or not folded, "R-C15-7", "unary operators on a %s are %s" % (cname, "folded" if cname == "Float" else "kept as operators"), loc(fn),
+                   found="folded" if folded else "operator")
+    chk.floor("R-C15-7", 24)
+
+
+def dag_rules(repo, chk):
+    t = repo.tree(EXPR)
+    n_a = 0
+    for fn in [n for n in ast.walk(t) if isinstance(n, ast.FunctionDef)]:
+        for loop in [x for x in walk(fn) if isinstance(x, ast.For)]:
+            if not (isinstance(loop.iter, ast.Call) and isinstance(loop.iter.func, ast.Attribute) and loop.iter.func.attr in ("operators", "list_of_operators")):
+                continue
+            apps = [c for c in calls(ast.Module(body=loop.body, type_ignores=[])) if last_attr(c) == "append_operator"
+                    or (isinstance(c.func, ast.Attribute) and c.func.attr == "append" and "_operators" in unparse(c.func.value))]
+            if not apps or not isinstance(loop.target, ast.Name):
+                continue
+            recv = unparse(loop.iter.func.value)
+            if recv == "self":
+                continue          # iterating one's own list is not a merge
+            n_a += 1
+            v = loop.target.id
+            guarded = False
+            for a in apps:
+                q = a
+                while q is not None and q is not loop:
+                    q = getattr(q, "_parent", None)
+                    if isinstance(q, ast.If):
+                        tt = unparse(q.test)
+                        if ("%s not in " % v) in tt or ("id(%s) not in " % v) in tt:
+                            guarded = True
+            fn._rel = EXPR
+            chk.expect(guarded, "R-C15-8", "%s merges the operators of %s without duplicates" % (fn.name, recv), loc(fn, loop),
+                       "operators of another expression are appended unconditionally: a sub-expression shared by both sides is listed twice and its derivative "
+                       "is propagated twice (e = x + 1; e*(e + y) has d/dx doubled)", expected="if oper not in <operators already present>", found=norm(loop))
+    merges = [c for c in ast.walk(t) if isinstance(c, ast.Call) and last_attr(c) == "_append_operators_of"]
+    chk.expect(n_a >= 1 and len(merges) >= 3, "R-C15-8", "binary operators and if_else merge operand expressions through the duplicate-free helper", loc(EXPR),
+               found="%d merge loops, %d helper calls" % (n_a, len(merges)))
+    for fn in [n for n in ast.walk(t) if isinstance(n, ast.FunctionDef) and n.name in ("_binary_operation_helper", "_unary_operation_helper", "if_else", "inequality")]:
+        for loop in [x for x in walk(fn) if isinstance(x, ast.For)]:
+            pass
+    n_b = 0
+    for fn in [n for n in ast.walk(t) if isinstance(n, ast.FunctionDef) and n.name == "get_rpn"]:
+        for a in [x for x in walk(fn) if isinstance(x, ast.Assign)]:
+            tg = [unparse(x) for x in a.targets]
+            if "rpn_map[self]" not in tg:
+                continue
+            v = a.value
+            if isinstance(v, ast.Subscript) and unparse(v.value) == "rpn_map":
+                n_b += 1
+                fn._rel = EXPR
+                chk.bad("R-C15-8", "get_rpn (line %d) builds the program of an operator in a new list" % a.lineno, loc(fn, a),
+                        "rpn_map[self] aliases the operand's list and the following append/extend/insert mutates it: a second use of that operand "
+                        "(shared sub-expression, or the exponent in the power rule's derivative) reads a corrupted program", expected="list(rpn_map[operand])", found=norm(a))
+            elif any(isinstance(x, ast.Subscript) and unparse(x.value) == "rpn_map" for x in ast.walk(v)):
+                n_b += 1
+                chk.ok("R-C15-8", "get_rpn (line %d) builds the program of an operator in a new list" % a.lineno, loc(EXPR, a))
+    chk.floor("R-C15-8", 2 + 6)
 
 WITNESSES = [
+    dict(name="rpn-aliases-operand-program", file=EXPR, old="            rpn_map[self] = _rpn = list(rpn_map[self._operand])\n", new="            rpn_map[self] = _rpn = rpn_map[self._operand]\n", rule="R-C15-8"),
+    dict(name="merge-appends-duplicates", file=EXPR, old="            if oper not in present:\n                present.add(oper)\n                self.append_operator(oper)",
+         new="            self.append_operator(oper)", rule="R-C15-8"),
+    dict(name="float-folds-params", file=EXPR, old="        elif other.is_float_type():\n            return cls.operation(self.value, other.value)",
+         new="        elif other.is_leaf() and not other.is_variable_type():\n            return cls.operation(self.value, other.value)", rule="R-C15-7"),
     dict(name="enum-drift", file=EXPR, old="    sign = -7\n    if_else = -8", new="    sign = -8\n    if_else = -7", rule="R-C15-1"),
     dict(name="cpp-sub-operand-order", file=CPP, old="\t      res = arg1 - arg2;", new="\t      res = arg2 - arg1;", rule="R-C15-2"),
     dict(name="cpp-inequality-strict", file=CPP, old="if (arg >= arg1 && arg <= arg2)", new="if (arg > arg1 && arg <= arg2)", rule="R-C15-2"),
